@@ -106,6 +106,7 @@ class ShardResult:
         self.found = {}             # sig -> (size, case, message)
         self.known_hits = {}        # sig -> count
         self.error = None
+        self.maxrss_mb = 0
 
 
 def _record(res, case, out, known_sigs, max_samples=3):
@@ -183,6 +184,11 @@ def run_hyp_shard(args):
             gc.collect()
     except Exception:
         res.error = 'part %s shard %d: %s' % (part_name, shard, traceback.format_exc())
+    try:
+        import resource
+        res.maxrss_mb = resource.getrusage(resource.RUSAGE_SELF).ru_maxrss / 1024.0
+    except Exception:
+        pass
     return res
 
 
@@ -200,6 +206,11 @@ def run_enum_shard(args):
             _record(res, case, out, known, max_samples=2)
     except Exception:
         res.error = 'part %s shard %d: %s' % (part_name, shard, traceback.format_exc())
+    try:
+        import resource
+        res.maxrss_mb = resource.getrusage(resource.RUSAGE_SELF).ru_maxrss / 1024.0
+    except Exception:
+        pass
     return res
 
 
@@ -324,6 +335,7 @@ def run_property(pid, tier, seed):
                             run_hyp_shard, (pid, tier, part.name, sh, per, seed, known_sigs, sd))))
             for part, sh, per, fut in futures:
                 r = fut.result()
+                total.maxrss_mb = max(total.maxrss_mb, getattr(r, 'maxrss_mb', 0))
                 if r.error:
                     errors.append(r.error)
                 ps = part_stats.setdefault(part.name, {'evaluations': 0, 'nontrivial': 0})
@@ -418,8 +430,8 @@ def run_property(pid, tier, seed):
     with open(os.path.join(VERIF_ROOT, 'evidence', '%s.json' % pid), 'w') as f:
         json.dump(evidence, f, indent=1, sort_keys=True)
     print('%s tier=%s seed=%d evaluations=%d distinct_nontrivial=%d (%.1f%%) violations=%d '
-          'known=%d wall=%.1fs' % (pid, tier, seed, total.evaluations, n_nontriv, 100 * frac,
-                                    len(violations_out), sum(total.known_hits.values()), wall))
+          'known=%d wall=%.1fs maxrss=%dMB' % (pid, tier, seed, total.evaluations, n_nontriv, 100 * frac,
+                                               len(violations_out), sum(total.known_hits.values()), wall, total.maxrss_mb))
     return status
 
 
